@@ -488,7 +488,7 @@ def bounded(rep: Report, tier, seed):
     b2.done()
     b3 = rep.add_bounded(Bounded("hessenberg_qr", f"k <= {kmax + 1}; generic, zero sub-diagonals, zero columns, real positive sub-diagonal (Arnoldi form), scaled", "W unitary, R upper triangular, W R = H"))
     for k in range(1, kmax + 2):
-        for pat in ("generic", "arnoldi", "zero_subdiag", "zero_column", "scaled"):
+        for pat in ("generic", "arnoldi", "zero_subdiag", "zero_column", "scaled", "imag_subdiag", "axis_subdiag", "real_everything"):
             H4 = rng.standard_normal((k + 1, k, 4))
             for i in range(k + 1):
                 for j in range(k):
@@ -503,6 +503,16 @@ def bounded(rep: Report, tier, seed):
                 H4[:, k - 1] = 0
             if pat == "scaled":
                 H4 *= 1e-5
+            if pat == "imag_subdiag":          # sub-diagonal entries with exactly zero real part
+                for j in range(k):
+                    H4[j + 1, j, 0] = 0.0
+            if pat == "axis_subdiag":          # each sub-diagonal entry on a single imaginary axis
+                for j in range(k):
+                    v = np.zeros(4)
+                    v[1 + j % 3] = 1.5
+                    H4[j + 1, j] = v
+            if pat == "real_everything":
+                H4[..., 1:] = 0.0
             b3.case(f"{P}.bounded.hess_qr", (k, pat), lambda H4=H4: _check_hessqr(H4), f"Hessenberg QR k={k} pattern {pat}", facts={"k": k, "pattern": pat}, inputs={"H": H4})
     b3.samples.append({"k": 3, "pattern": "zero_subdiag"})
     b3.done()
